@@ -9,9 +9,10 @@ CONSTANTS
   ReadVal <- ReadValDef
   DataKeys <- DataKeysDef
   FutNames = {"f1", "f2"}
-  RecordIntr = TRUE
   StreamOrder <- StreamOrderDef
   DevOrder <- DevOrderDef
   PlanLib <- PlanLibDef
+  ProjKinds = {"call", "ret", "req", "reqret", "msg", "gen", "dev", "stat", "state", "doc", "nev"}
 SPECIFICATION TraceSpec
 POSTCONDITION TraceAccepted
+ACTION_CONSTRAINT TraceReport
